@@ -4,6 +4,7 @@
 (* the extended chain); named arguments in any order, omitted ones take their    *)
 (* defaults; yield content renders the caller's content in the caller's scope.   *)
 EXTENDS JetProg
+CONSTANT Families       \* which program families to enumerate: a subset of {"tree", "params", "shared", "alias", "content"}
 
 Files == <<"leaf", "mid", "root", "i1", "i2", "i3">>
 \* every definition declares a parameter with a default of its own: whichever definition is rendered, at a yield
@@ -101,10 +102,15 @@ MkAlias(par) ==
 MkC(par) == CASE par[1] = "alias" -> MkAlias(par) [] par[1] = "shared" -> MkShared(par) [] par[1] = "tree" -> MkTree(par) [] par[1] = "params" -> MkParams(par) [] par[1] = "content" -> MkContent(par)
 
 FileSet == {"leaf", "mid", "root", "i1", "i2", "i3"}
-cParams == ({"tree"} \X (0..2) \X (0..2) \X (SUBSET FileSet) \X {{}, {"leaf"}, {"root"}, {"i2", "mid"}} \X
+AllParams == ({"tree"} \X (0..2) \X (0..2) \X (SUBSET FileSet) \X {{}, {"leaf"}, {"root"}, {"i2", "mid"}} \X
               {"yield", "defsite", "inrange", "inblock", "incontent", "afterincif", "afterinclude", "afterexec"})
       \cup ({"params"} \X Perms({"a", "b", "c"}) \X {"import", "extends"})
       \cup ({"shared"} \X {"ab", "ba"} \X BOOLEAN)
       \cup ({"alias"} \X (1..4))
       \cup ({"content"} \X {"caller", "none", "defsite"} \X BOOLEAN \X BOOLEAN)
+cParams == IF "tree" \in Families THEN AllParams
+           ELSE (IF "params" \in Families THEN {"params"} \X Perms({"a", "b", "c"}) \X {"import", "extends"} ELSE {})
+                \cup (IF "shared" \in Families THEN {"shared"} \X {"ab", "ba"} \X BOOLEAN ELSE {})
+                \cup (IF "alias" \in Families THEN {"alias"} \X (1..4) ELSE {})
+                \cup (IF "content" \in Families THEN {"content"} \X {"caller", "none", "defsite"} \X BOOLEAN \X BOOLEAN ELSE {})
 =============================================================================
